@@ -21,12 +21,14 @@ fn space_for(tier: Tier) -> (Space, usize) {
             s.ast("ALTC", 5, 64);
             s.ast_range("LP", 1, 3, 32, 5);
             s.ast_range("ALT", 1, 3, 32, 4);
+            s.ast_range("FX", 1, 4, 32, 6).ast_range("HI", 1, 4, 32, 4);
             (s, 3)
         }
         Tier::Thorough => {
             s.ast("K", 5, 64).ast("U", 5, 64).ast("CL", 4, 64).ast("GC", 5, 64).ast("GCM", 5, 64).ast("GCE", 4, 64).ast("ALTC", 6, 64);
             s.ast_range("LP", 1, 4, 32, 6);
             s.ast_range("ALT", 1, 4, 32, 4);
+            s.ast_range("FX", 1, 4, 32, 6).ast_range("HI", 1, 4, 32, 4);
             (s, 4)
         }
     }
